@@ -1,11 +1,18 @@
 """C17 - PiecewiseCovEffect stays continuous piecewise-linear under edits.
 
-(D)   spec/CovEffect.tla checked exhaustively (MC_CovEffect.cfg).
-(S->C) every behaviour of MC_CovEffect_beh.cfg (and -simulate behaviours in the
-      thorough tier) is stepped through the real object on a dyadic grid; the real
-      state after each call must EQUAL the state TLC computed.
-(C->S) the same runs plus random real-valued histories are recorded as NDJSON and
-      judged by spec/Trace_CovEffect.tla.
+(D)   spec/CovEffect.tla checked exhaustively (MC_CovEffect.cfg: short initial lists, <= 4 edits;
+      MC_CovEffect_long.cfg: initial lists of 4, 5 and 6 breakpoints, <= 2 edits); the named variants
+      argmax / alias / dictalias / ctoralias must be rejected.
+(S->C) behaviours of MC_CovEffect_beh.cfg (all of them) and MC_CovEffect_sim6.cfg (-simulate: 6 edits from
+      initial lists of every length 1..6) - and MC_CovEffect_sim.cfg in the thorough tier - are stepped
+      through the real object on a dyadic grid; the real state after each call must EQUAL the state TLC computed.
+(C->S) the same runs plus random real-valued histories are recorded as NDJSON and judged by
+      spec/Trace_CovEffect.tla.
+
+Input space (notes/C17.md, "Quantifier audit"): every case fixes, besides its history, HOW the calls are made -
+container and number types of the constructor arguments, the three names, positional / keyword / defaulted
+arguments, the type of each coverage and temperature, the unit of the dimensional getters - by rotation, so that
+every form is exercised in every run; VACUITY lists the classes that must have been seen (else exit 2).
 """
 import json
 import random
@@ -15,13 +22,66 @@ from harness import core
 from harness.core import to_dec
 
 Q = 4.0
-T_POINTS = (298.15, 650.0)
+T0 = 298.15                      # documented default temperature (not read from the library)
+NONE = '<None>'
+# temperatures: (tag, value, type)  - float / int / numpy scalars, 0.5 K .. 10000 K
+T_LIST = [('T298', 298.15, 'float'), ('T650', 650.0, 'float'), ('T1', 1.0, 'float'), ('T77', 77.0, 'float'),
+          ('T300int', 300, 'int'), ('T1200int', 1200, 'int'), ('T3000', 3000.0, 'float'),
+          ('T500npf', 500.0, 'npfloat'), ('T400npi', 400, 'npint'), ('T0p5', 0.5, 'float'),
+          ('T10000', 10000.0, 'float')]
+# energy units of the dimensional getters: the whole table of pmutt.constants.R without its '/K'
+UNITS = ['J/mol', 'kJ/mol', 'L kPa/mol', 'cm3 kPa/mol', 'm3 Pa/mol', 'cm3 MPa/mol', 'm3 bar/mol', 'L bar/mol',
+         'L torr/mol', 'cal/mol', 'kcal/mol', 'L atm/mol', 'cm3 atm/mol', 'eV', 'Eh', 'Ha']
+CONTAINERS = ['list', 'tuple', 'ndarray']
+NUMS = ['float', 'int', 'npfloat', 'npint']
+NAMES = [('A', 'B', 'AB'), ('CO(S)', 'H2O(S)', None), ('H(S)', 'H(S)', 'H-H self'),
+         ('NH3(S-2)', 'N2_TS(S)', ''), ('CH3CH2OH(T)', 'O2(T)', 'r_0001')]
+
+VACUITY = (['init_len_%d' % n for n in range(1, 7)] + ['init_duplicate', 'init_last_is_one']
+           + ['container_' + c for c in CONTAINERS] + ['num_' + n for n in NUMS]
+           + ['name_omitted', 'name_empty', 'name_given', 'ctor_positional', 'ctor_keyword', 'sibling']
+           + ['insert_between', 'insert_equal', 'insert_equal_zero', 'insert_equal_last', 'insert_above_last',
+              'insert_at_one', 'insert_repeated_slope', 'insert_zero_slope', 'insert_x_int', 'insert_x_np']
+           + ['pop_middle', 'pop_last', 'pop_zero_refused', 'pop_zero_single', 'pop_negative', 'pop_npindex',
+              'pop_repeated_slope', 'pop_to_single']
+           + ['edits_%d' % n for n in range(1, 7)]
+           + ['x_on', 'x_zero', 'x_one', 'x_between', 'x_beyond_last', 'x_beyond_one', 'x_adj_above',
+              'x_adj_below', 'x_on_duplicate', 'xtype_float', 'xtype_int', 'xtype_npfloat', 'xtype_npint']
+           + [t[0] for t in T_LIST]
+           + ['form_kw', 'form_pos', 'form_defT', 'form_defx', 'form_none', 'eval_after_eval_then_edit']
+           + ['dim_' + u for u in UNITS] + ['dim_defT', 'dim_posT', 'dim_kwT']
+           + ['reload_dict', 'reload_json', 'reload_final', 'reload_then_edit',
+              'frozen_orig', 'frozen_dict', 'frozen_twin', 'frozen_sibling'])
 
 
-def _mk(intervals, slopes):
-    from pmutt.mixture.cov import PiecewiseCovEffect
-    return PiecewiseCovEffect(name_i='A', name_j='B', intervals=list(intervals),
-                              slopes=list(slopes), name='AB')
+def _np():
+    import numpy
+    return numpy
+
+
+def _cast(v, num):
+    """The value v as python float / python int / numpy.float64 / numpy.int64 (the integer types only when v is
+    a whole number; otherwise the float type of the same family)."""
+    whole = float(v).is_integer()
+    if num == 'int':
+        return int(v) if whole else float(v)
+    if num == 'npfloat':
+        return _np().float64(v)
+    if num == 'npint':
+        return _np().int64(v) if whole else _np().float64(v)
+    return float(v)
+
+
+def _container(vals, kind):
+    if kind == 'tuple':
+        return tuple(vals)
+    if kind == 'ndarray':
+        return _np().array([float(v) for v in vals], dtype=float)
+    return list(vals)
+
+
+def _name(s):
+    return NONE if s is None else s
 
 
 def _state(obj):
@@ -32,95 +92,308 @@ def _state(obj):
 def _state_ev(ev, obj, extra=None):
     iv, sl, ic = _state(obj)
     e = {'ev': ev, 'iv': [to_dec(v) for v in iv], 'sl': [to_dec(v) for v in sl],
-         'ic': [to_dec(v) for v in ic]}
+         'ic': [to_dec(v) for v in ic], 'ni': _name(obj.name_i), 'nj': _name(obj.name_j), 'nm': _name(obj.name)}
     if extra:
         e.update(extra)
     return e
 
 
-def _eval_events(obj, xs):
+def _eval_points(intervals, ctr):
+    """Coverages at which the function is evaluated after a call: 0, the breakpoints, the midpoints, 1, beyond
+    the last breakpoint (and beyond 1), and the doubles adjacent to two of the breakpoints.  With more than three
+    breakpoints every other breakpoint/midpoint is taken, alternating from call to call (ctr is odd/even in
+    turn), so that consecutive calls of one history cover all of them.  [(x, kinds)]"""
+    np = _np()
+    raw = [float(v) for v in intervals]
+    iv = sorted(set(raw))
+    thin = len(iv) > 3
+    pts = [(0.0, {'zero'})]
+    for j, a in enumerate(iv):
+        if thin and (j + ctr) % 2:
+            continue
+        k = {'on'}
+        if raw.count(a) > 1:
+            k.add('on_duplicate')
+        pts.append((a, k))
+    for j, (a, b) in enumerate(zip(iv, iv[1:])):
+        if thin and (j + ctr) % 2 == 0:
+            continue
+        pts.append(((a + b) / 2, {'between'}))
+    pts.append((1.0, {'one'}))
+    pts.append((iv[-1] + 0.125, {'beyond_last'}))
+    if ctr % 4 < 2:
+        pts.append((2.0 if ctr % 4 else 1.0 + 2.0 ** -20, {'beyond_one'}))
+    a = iv[ctr % len(iv)]
+    # (above 0 the next double is a denormal, which carries no relative precision: the smallest power of two
+    # that keeps slope * x / (R T) a normal double stands in for it)
+    pts.append((float(np.nextafter(a, 4.0)) if a > 0.0 else 2.0 ** -1000, {'adj_above'}))
+    b = iv[(ctr // 3) % len(iv)]
+    if b > 0.0:
+        pts.append((float(np.nextafter(b, -1.0)), {'adj_below'}))
+    out = []
+    for x, k in pts:
+        if x == 0.0:
+            k = k | {'zero'}
+        if x == 1.0:
+            k = k | {'one'}
+        if x > iv[-1]:
+            k = k | {'beyond_last'}
+        if x > 1.0:
+            k = k | {'beyond_one'}
+        out.append((x, k))
+    return out
+
+
+def _call(fn, form, x, T):
+    if form == 'kw':
+        return fn(x=x, T=T)
+    if form == 'pos':
+        return fn(x, T)
+    if form == 'defT':
+        return fn(x=x)
+    if form == 'defx':
+        return fn(T=T)
+    return fn()
+
+
+def _eval_events(obj, ctr, cnt):
+    """One 'eval' line per coverage (every getter at that coverage and one temperature; temperature, argument
+    types and call form rotate with ctr) and one 'dim' line (dimensional getters in one unit)."""
     from pmutt import constants as c
     evs = []
-    for x in xs:
-        for T in T_POINTS:
-            vals = {'U': obj.get_UoRT(x=x, T=T), 'H': obj.get_HoRT(x=x, T=T),
-                    'G': obj.get_GoRT(x=x, T=T), 'F': obj.get_FoRT(x=x, T=T),
-                    'S': obj.get_SoR(), 'Cp': obj.get_CpoR(), 'Cv': obj.get_CvoR()}
-            e = {'ev': 'eval', 'x': to_dec(x), 'T': to_dec(T), 'R': to_dec(c.R('kcal/mol/K'))}
-            for k, v in vals.items():
-                e[k] = to_dec(v)
-            evs.append(e)
+    pts = _eval_points(obj.intervals, ctr)
+    R = to_dec(c.R('kcal/mol/K'))
+    for j, (x, kinds) in enumerate(pts):
+        r = ctr + j
+        ttag, Tv, ttyp = T_LIST[r % len(T_LIST)]
+        if j == 0:                   # the coverage 0: also through the default of x
+            form = ('defx', 'none', 'kw')[r % 3]
+        else:
+            form = ('kw', 'pos', 'defT')[r % 3]
+        whole = float(x).is_integer()
+        xtyp = (('float', 'int', 'npfloat', 'npint') if whole else ('float', 'npfloat', 'float', 'npfloat'))[(r // 3) % 4]
+        xa, Ta = _cast(x, xtyp), _cast(Tv, ttyp)
+        if form in ('defT', 'none'):
+            Tv, ttag = T0, None
+        if form in ('defx', 'none'):
+            xtyp = None
+        vals = {'U': _call(obj.get_UoRT, form, xa, Ta), 'H': _call(obj.get_HoRT, form, xa, Ta),
+                'G': _call(obj.get_GoRT, form, xa, Ta), 'F': _call(obj.get_FoRT, form, xa, Ta),
+                'S': obj.get_SoR(), 'Cp': obj.get_CpoR(), 'Cv': obj.get_CvoR()}
+        e = {'ev': 'eval', 'x': to_dec(x), 'T': to_dec(Tv), 'R': R, 'form': form}
+        for k, v in vals.items():
+            e[k] = to_dec(v)
+        evs.append(e)
+        for k in kinds:
+            cnt['x_' + k] = cnt.get('x_' + k, 0) + 1
+        if xtyp:
+            cnt['xtype_' + xtyp] = cnt.get('xtype_' + xtyp, 0) + 1
+        if ttag:
+            cnt[ttag] = cnt.get(ttag, 0) + 1
+        cnt['form_' + form] = cnt.get('form_' + form, 0) + 1
+    # dimensional getters of _ModelBase: one unit per call site, rotating through the whole table
+    u = UNITS[ctr % len(UNITS)]
+    x, _ = pts[1 + (ctr // 2) % (len(pts) - 1)]
+    ttag, Tv, ttyp = T_LIST[(ctr // 5) % len(T_LIST)]
+    Ta = _cast(Tv, ttyp)
+    tform = ('kwT', 'posT', 'defT')[ctr % 3]
+    vals = {}
+    for q in 'UHGF':
+        fn = getattr(obj, 'get_' + q)
+        if tform == 'kwT':
+            vals[q] = fn(units=u, T=Ta, x=x)
+        elif tform == 'posT':
+            vals[q] = fn(u, Ta, x=x)
+        else:
+            vals[q] = fn(u, x=x)
+    vals['S'] = obj.get_S(u + '/K')
+    vals['Cp'] = obj.get_Cp(units=u + '/K')
+    vals['Cv'] = obj.get_Cv(u + '/K')
+    e = {'ev': 'dim', 'x': to_dec(x), 'T': to_dec(T0 if tform == 'defT' else Tv), 'units': u}
+    for k, v in vals.items():
+        e[k] = to_dec(v)
+    evs.append(e)
+    cnt['dim_' + u] = cnt.get('dim_' + u, 0) + 1
+    cnt['dim_' + tform] = cnt.get('dim_' + tform, 0) + 1
     return evs
 
 
-def _eval_points(intervals, rnd):
-    pts = set()
-    iv = sorted(set(float(v) for v in intervals))
-    for a in iv:
-        pts.add(a)
-    for a, b in zip(iv, iv[1:]):
-        pts.add((a + b) / 2)
-    pts.add(iv[-1] + 0.125)
-    pts.add(0.0)
-    return sorted(pts)
+def _frozen_now(who, ref):
+    """(state, evaluator) of something left behind.  A serialised record is evaluated through a fresh load of a
+    deep copy (which cannot touch the record)."""
+    import copy
+    from pmutt.mixture.cov import PiecewiseCovEffect
+    if who == 'dict':
+        st = (list(ref['intervals']), list(ref['slopes']), list(ref['intercepts']))
+        return st, (lambda: PiecewiseCovEffect.from_dict(copy.deepcopy(ref)))
+    return _state(ref), (lambda: ref)
 
 
 def execute(case):
-    """Run one history through the real object.  Returns (events, mismatches) where
-    mismatches lists S->C disagreements with the TLC-computed states."""
-    import copy
+    """Run one history through the real object.  Returns (events, mismatches, counters) where mismatches lists
+    S->C disagreements with the TLC-computed states."""
     import json as _json
     from pmutt.mixture.cov import PiecewiseCovEffect
     from pmutt.io.json import pmuttEncoder, json_to_pmutt
-    rnd = random.Random(case.get('seed', 0))
     grid = case['kind'] == 'grid'
-    sc = (1.0 / Q) if grid else 1.0
+    sc = (1.0 / float(case.get('q', Q))) if grid else 1.0
     ops = case['ops']
-    events, mism = [], []
+    ctor = case.get('ctor', {})
+    num = ctor.get('num', 'float')
+    ctr = int(case.get('rot', 0))
+    events, mism, cnt = [], [], {}
     obj = None
-    frozen = []
+    frozen = []                      # [who, ref, state, fx, U]
     grid_binding = True
+    evaluated = False
+    n_edits = 0
+
+    def hit(k):
+        cnt[k] = cnt.get(k, 0) + 1
+
+    def leave(who, ref, fx):
+        st, getter = _frozen_now(who, ref)
+        frozen.append([who, ref, st, fx, float(getter().get_UoRT(x=fx, T=T0))])
+
     for k, op in enumerate(ops):
         act = op['act']
         extra = {}
         if act == 'construct':
-            obj = _mk([v * sc for v in op['iv0']], [float(s) for s in op['sl0']])
+            ni, nj, nm = ctor.get('names', ['A', 'B', 'AB'])
+            cont = ctor.get('container', 'list')
+            ivs = [_cast(v * sc, num) for v in op['iv0']]
+            sls = [_cast(s, num) for s in op['sl0']]
+            aiv, asl = _container(ivs, cont), _container(sls, cont)
+            if ctor.get('positional'):
+                obj = (PiecewiseCovEffect(ni, nj, aiv, asl) if ctor.get('name_omitted')
+                       else PiecewiseCovEffect(ni, nj, aiv, asl, nm))
+                hit('ctor_positional')
+            else:
+                kw = dict(name_i=ni, name_j=nj, intervals=aiv, slopes=asl)
+                if not ctor.get('name_omitted'):
+                    kw['name'] = nm
+                obj = PiecewiseCovEffect(**kw)
+                hit('ctor_keyword')
+            if ctor.get('name_omitted'):
+                nm = None
+                hit('name_omitted')
+            elif nm == '':
+                hit('name_empty')
+            else:
+                hit('name_given')
+            extra = {'aiv': [to_dec(v) for v in ivs], 'asl': [to_dec(v) for v in sls],
+                     'ani': _name(ni), 'anj': _name(nj), 'anm': _name(nm)}
+            hit('init_len_%d' % len(ivs))
+            hit('container_' + cont)
+            hit('num_' + num)
+            if len(set(float(v) for v in ivs)) < len(ivs):
+                hit('init_duplicate')
+            if len(ivs) > 1 and float(ivs[-1]) == 1.0:
+                hit('init_last_is_one')
+            if ctor.get('sibling') and cont == 'list':
+                # a second object constructed from the very same argument lists: it must not notice the edits
+                sib = PiecewiseCovEffect(nj, ni, aiv, asl)
+                leave('sibling', sib, 0.5 * (float(max(ivs)) + 1.0))
+                hit('sibling')
         elif act == 'insert':
-            x, s = op['x'] * sc, float(op['s'])
+            x, s = _cast(op['x'] * sc, op.get('xt', num)), _cast(op['s'], op.get('st', num))
+            cur = [float(v) for v in obj.intervals]
+            if float(x) in cur:
+                hit('insert_equal')
+                if float(x) == 0.0:
+                    hit('insert_equal_zero')
+                if float(x) == cur[-1]:
+                    hit('insert_equal_last')
+            elif float(x) > cur[-1]:
+                hit('insert_above_last')
+            else:
+                hit('insert_between')
+            if float(x) == 1.0:
+                hit('insert_at_one')
+            if float(s) in [float(v) for v in obj.slopes]:
+                hit('insert_repeated_slope')
+            if float(s) == 0.0:
+                hit('insert_zero_slope')
+            if isinstance(x, int):
+                hit('insert_x_int')
+            if type(x).__module__ == 'numpy':
+                hit('insert_x_np')
             obj.insert(x, s)
             extra = {'x': to_dec(x), 's': to_dec(s)}
+            n_edits += 1
         elif act in ('pop', 'pop0'):
             i = int(op['x']) if act == 'pop' else 0
+            n = len(obj.intervals)
+            sl_before = [float(v) for v in obj.slopes]
+            ia = _np().int64(i) if op.get('it') == 'npint' else i
             raised = False
             try:
-                obj.pop(i)
+                obj.pop(ia)
             except ValueError:
                 raised = True
             extra = {'i': i, 'raised': raised}
             act = 'pop'
-        elif act == 'reload':
-            # the object that is serialised stays behind; it must never change again (frozen events)
-            fx = 0.5 * (max(obj.intervals) + 1.0)
-            frozen.append((obj, _state(obj), fx, float(obj.get_UoRT(x=fx, T=T_POINTS[0]))))
-            if op.get('via', 'dict') == 'json':
-                obj = _json.loads(_json.dumps(obj, cls=pmuttEncoder), object_hook=json_to_pmutt)
+            n_edits += 1
+            if i == 0:
+                hit('pop_zero_refused')
+                if n == 1:
+                    hit('pop_zero_single')
             else:
-                obj = PiecewiseCovEffect.from_dict(obj.to_dict())
+                pi = i + n if i < 0 else i
+                hit('pop_last' if pi == n - 1 else 'pop_middle')
+                if i < 0:
+                    hit('pop_negative')
+                if 0 < pi < n and sl_before[pi] in sl_before[:pi]:
+                    hit('pop_repeated_slope')
+                if len(obj.intervals) == 1:
+                    hit('pop_to_single')
+            if op.get('it') == 'npint':
+                hit('pop_npindex')
+        elif act == 'reload':
+            # what is serialised stays behind and must never change again (frozen events): the object itself, and
+            # for the in-memory route the record and a second object loaded from the same record
+            fx = 0.5 * (float(max(obj.intervals)) + 1.0)
+            via = op.get('via', 'dict')
+            if via == 'json' and any(type(v).__name__ == 'int64' for v in list(obj.intervals) + list(obj.slopes)):
+                via = 'dict'         # json.dumps has no encoding for numpy integers (pmuttEncoder: property C11)
+            orig = obj
+            if via == 'json':
+                obj = _json.loads(_json.dumps(orig, cls=pmuttEncoder), object_hook=json_to_pmutt)
+                leave('orig', orig, fx)
+            else:
+                d = orig.to_dict()
+                obj = PiecewiseCovEffect.from_dict(d)
+                twin = PiecewiseCovEffect.from_dict(d)
+                leave('orig', orig, fx)
+                leave('dict', d, fx)
+                leave('twin', twin, fx)
+            hit('reload_' + via)
+            if op.get('final'):
+                hit('reload_final')
         else:
             raise core.MachineryError('unknown op %r' % (op,))
+        if act in ('insert', 'pop'):
+            if evaluated:
+                hit('eval_after_eval_then_edit')
+            if any(f[0] == 'orig' for f in frozen):
+                hit('reload_then_edit')
         events.append(_state_ev(act, obj, extra))
-        for (fo, (siv, ssl, sic), fx, sU) in frozen:
-            if fo is obj:
+        # what was left behind is looked at again after every edit and at the end of the history
+        for (who, ref, (siv, ssl, sic), fx, sU) in (frozen if act != 'reload' or k == len(ops) - 1 else ()):
+            if ref is obj:
                 continue
-            iv2, sl2, ic2 = _state(fo)
+            (iv2, sl2, ic2), getter = _frozen_now(who, ref)
             try:
-                U2 = float(fo.get_UoRT(x=fx, T=T_POINTS[0]))
+                U2 = float(getter().get_UoRT(x=fx, T=T0))
             except Exception:
                 U2 = float('inf')
-            events.append({'ev': 'frozen', 'iv': [to_dec(v) for v in iv2], 'sl': [to_dec(v) for v in sl2],
+            events.append({'ev': 'frozen', 'who': who,
+                           'iv': [to_dec(v) for v in iv2], 'sl': [to_dec(v) for v in sl2],
                            'ic': [to_dec(v) for v in ic2], 'siv': [to_dec(v) for v in siv],
                            'ssl': [to_dec(v) for v in ssl], 'sic': [to_dec(v) for v in sic],
                            'U': to_dec(U2) if core.finite(U2) else [1, 99], 'sU': to_dec(sU)})
+            if act in ('insert', 'pop'):
+                hit('frozen_' + who)
         # An insertion at an existing breakpoint may legitimately go before or after it (both keep the
         # lists ascending and paired; the property does not choose): from that step on the expected
         # states of the deterministic model are no longer binding, the relation InsertOK (trace spec) is.
@@ -128,13 +401,18 @@ def execute(case):
             grid_binding = False
         if grid and grid_binding and 'iv' in op:
             iv, sl, ic = _state(obj)
-            exp = ([v / Q for v in op['iv']], [float(v) for v in op['sl']],
-                   [v / Q for v in op['ic']])
+            exp = ([v * sc for v in op['iv']], [float(v) for v in op['sl']],
+                   [v * sc for v in op['ic']])
             if (iv, sl, ic) != exp:
-                mism.append({'step': k, 'op': op, 'expected': exp, 'got': (iv, sl, ic)})
+                mism.append({'step': k, 'op': op, 'expected': exp,
+                             'got': ([float(v) for v in iv], [float(v) for v in sl], [float(v) for v in ic])})
         if case.get('eval', True):
-            events.extend(_eval_events(obj, _eval_points(obj.intervals, rnd)))
-    return events, mism
+            events.extend(_eval_events(obj, ctr, cnt))
+            evaluated = True
+            ctr += 7
+    if 1 <= n_edits <= 6:
+        hit('edits_%d' % n_edits)
+    return events, mism, cnt
 
 
 def _safe_execute(case):
@@ -143,95 +421,210 @@ def _safe_execute(case):
     except core.MachineryError:
         raise
     except Exception as ex:          # the library raised on a valid history
-        return [], [{'step': -1, 'raised': '%s: %s' % (type(ex).__name__, ex)}]
+        return [], [{'step': -1, 'raised': '%s: %s' % (type(ex).__name__, ex)}], {}
 
 
-def _beh_to_case(h, cid):
+def _ctor_for(rnd, ops):
+    """How the constructor is called.  A tuple / ndarray argument is documented nowhere as editable (the class
+    documents lists; insert/pop are list methods): those containers are only chosen when the first edit comes
+    after a reload (which always yields lists)."""
+    first_edit = next((k for k, o in enumerate(ops) if o['act'] in ('insert', 'pop', 'pop0')), None)
+    first_reload = next((k for k, o in enumerate(ops) if o['act'] == 'reload'), None)
+    editable_later = first_edit is None or (first_reload is not None and first_reload < first_edit)
+    cont = rnd.choice(CONTAINERS) if editable_later else 'list'
+    names = list(rnd.choice(NAMES))
+    return {'container': cont, 'num': rnd.choice(NUMS), 'names': names,
+            'name_omitted': names[2] is None, 'positional': rnd.random() < 0.4,
+            'sibling': cont == 'list' and rnd.random() < 0.3}
+
+
+def _beh_to_case(h, cid, rnd, q=Q):
     ops = []
     for r in h:
         op = {'act': r['act'], 'x': r['x'], 's': r['s'], 'iv': r['iv'], 'sl': r['sl'],
               'ic': r['ic']}
         if r['act'] == 'construct':
             op['iv0'], op['sl0'] = r['iv'], r['sl']
+        if r['act'] == 'pop' and rnd.random() < 0.25:
+            op['it'] = 'npint'
         ops.append(op)
-    return {'cid': cid, 'kind': 'grid', 'ops': ops}
+    # serialise and reload after every history
+    ops.append({'act': 'reload', 'via': rnd.choice(['dict', 'json']), 'final': True})
+    return {'cid': cid, 'kind': 'grid', 'q': q, 'ops': ops, 'ctor': _ctor_for(rnd, ops),
+            'rot': rnd.randrange(1 << 16)}
 
 
-def _random_case(rnd, cid):
-    n0 = rnd.randint(1, 4)
-    ivs = [0.0] + sorted(round(rnd.uniform(0.01, 1.0), rnd.choice([2, 3, 6])) for _ in range(n0 - 1))
-    ops = [{'act': 'construct', 'iv0': ivs, 'sl0': [rnd.uniform(-40, 40) for _ in ivs]}]
+def _random_case(rnd, cid, k):
+    """A real-valued history: 1-6 initial breakpoints in [0,1] (k rotates the length), 1-6 edits (k rotates the
+    count) with reloads in between and one at the end."""
+    n0 = 1 + k % 6
+    n_edits = 1 + (k // 6) % 6
+    ivs = [0.0] + sorted(round(rnd.uniform(0.01, 0.99), rnd.choice([2, 3, 6])) for _ in range(n0 - 1))
+    if n0 > 1 and rnd.random() < 0.3:
+        ivs[-1] = 1.0                                        # the upper end of the coverage range
+    if n0 > 2 and rnd.random() < 0.15:
+        j = rnd.randrange(1, n0 - 1)
+        ivs[j] = ivs[j + 1]                                  # ascending, not strictly
+    mode = rnd.randrange(4)
+    two = [rnd.uniform(-40, 40), rnd.uniform(-40, 40)]
+
+    def slope():
+        if mode == 0:
+            return rnd.uniform(-40, 40)
+        if mode == 1:
+            return float(rnd.choice([-3, -1, 0, 2, 5]))      # whole numbers, repeated, zero
+        if mode == 2:
+            return rnd.choice(two)                           # the same slope on several segments
+        return rnd.choice([-1, 1]) * 10 ** rnd.uniform(-4, 4)
+    ops = [{'act': 'construct', 'iv0': ivs, 'sl0': [slope() for _ in ivs]}]
     cur = list(ivs)
-    for _ in range(rnd.randint(1, 7)):
+    edits = 0
+    if rnd.random() < 0.25:
+        ops.append({'act': 'reload', 'via': rnd.choice(['dict', 'json'])})
+    while edits < n_edits:
         r = rnd.random()
-        if r < 0.55:
-            mode = rnd.random()
-            if mode < 0.2:
-                x = max(cur) + rnd.uniform(0.0, 0.3)         # at/above the last breakpoint
-            elif mode < 0.3:
-                x = rnd.choice(cur)                          # duplicate breakpoint
+        if r < 0.55 or (len(cur) == 1 and r < 0.85):
+            m = rnd.random()
+            if m < 0.12:
+                x = min(1.0, max(cur) + rnd.uniform(0.0, 0.3))   # at/above the last breakpoint, within [0,1]
+            elif m < 0.2:
+                x = 1.0
+            elif m < 0.35:
+                x = rnd.choice(cur)                              # equal to an existing breakpoint
+            elif m < 0.4:
+                x = 0.0                                          # equal to the first breakpoint
+            elif m < 0.45:
+                x = max(cur)                                     # equal to the last breakpoint
             else:
                 x = rnd.uniform(0.0, 1.0)
-            ops.append({'act': 'insert', 'x': x, 's': rnd.uniform(-40, 40)})
+            op = {'act': 'insert', 'x': x, 's': slope()}
+            if rnd.random() < 0.3:
+                op['xt'] = rnd.choice(NUMS)
+            if rnd.random() < 0.3:
+                op['st'] = rnd.choice(NUMS)
+            ops.append(op)
             cur.append(x)
-        elif r < 0.8:
-            i = rnd.randint(0, max(0, len(cur) - 1))
-            ops.append({'act': 'pop' if i else 'pop0', 'x': i})
-            if i and i < len(cur):
-                cur.sort()
-                cur.pop(i)
+            cur.sort()
         else:
+            n = len(cur)
+            m = rnd.random()
+            if m < 0.25 or n == 1:
+                i = 0
+            elif m < 0.5:
+                i = -rnd.randint(1, n - 1)                       # from the end; -n (the first pair) is not offered
+            elif m < 0.65:
+                i = n - 1
+            else:
+                i = rnd.randint(1, n - 1)
+            op = {'act': 'pop' if i else 'pop0', 'x': i}
+            if rnd.random() < 0.3:
+                op['it'] = 'npint'
+            ops.append(op)
+            if i:
+                cur.pop(i)
+        edits += 1
+        if rnd.random() < 0.2:
             ops.append({'act': 'reload', 'via': rnd.choice(['dict', 'json'])})
-    return {'cid': cid, 'kind': 'real', 'ops': ops, 'seed': rnd.randrange(1 << 30)}
+    ops.append({'act': 'reload', 'via': rnd.choice(['dict', 'json']), 'final': True})
+    return {'cid': cid, 'kind': 'real', 'ops': ops, 'seed': rnd.randrange(1 << 30),
+            'ctor': _ctor_for(rnd, ops), 'rot': rnd.randrange(1 << 16)}
+
+
+def _register(ctx, module, cfg, r):
+    """What Ctx.model records, for a TLC run that was started on a thread."""
+    ctx.count('states', r.distinct)
+    ctx.count('transitions', r.states)
+    ctx.coverage.setdefault('models', []).append(
+        {'module': module, 'cfg': cfg, 'distinct_states': r.distinct, 'states_generated': r.states,
+         'depth': r.depth, 'ok': r.ok, 'violated': r.violated, 'wall_s': round(r.wall, 1)})
+
+
+def _behaviours(r, what, need_ok=False):
+    if need_ok and not r.ok:
+        raise core.MachineryError('%s failed:\n%s' % (what, r.out[-2000:]))
+    behs = [core.parse_tla(p)[1] for p in r.prints() if core.tagged(p, 'BEH')]
+    if not behs:
+        raise core.MachineryError('%s produced no behaviours:\n%s' % (what, r.out[-2000:]))
+    return behs
 
 
 def run(ctx):
+    import concurrent.futures as cf
     ctx.coverage['rule'] = (
-        'a case is one edit history (construct, then insert/pop/reload steps) of a '
-        'PiecewiseCovEffect; grid cases are complete TLC behaviours of CovEffect.tla on a dyadic '
-        'grid (state equality after each call), real cases are random real-valued histories; '
-        'every case is also judged line by line by Trace_CovEffect.tla; non-trivial = contains '
-        'at least one insert or pop; distinct by the operation sequence')
+        'a case is one edit history (construct, then insert/pop/reload steps, a reload at the end) of a '
+        'PiecewiseCovEffect together with the form of every call (container and number types, names, '
+        'positional/keyword/defaulted arguments, coverage and temperature types, unit of the dimensional '
+        'getters); grid cases are complete TLC behaviours of CovEffect.tla on a dyadic grid (state equality '
+        'after each call), real cases are random real-valued histories; every case is also judged line by '
+        'line by Trace_CovEffect.tla; non-trivial = contains at least one insert or pop; distinct by the '
+        'operation sequence')
     cases = []
     if ctx.replay_case is not None:
         cases = [ctx.replay_case['case']]
     else:
-        # (D) design model
-        ctx.model('MC_CovEffect', 'MC_CovEffect')
-        bad = ctx.model('MC_CovEffect', 'MC_CovEffect_argmax', expect_ok=False)
-        if bad.ok or bad.violated is None:
-            raise core.MachineryError('the argmax variant should be rejected by the design model')
-        ctx.notes.append('design model rejects the numpy.argmax insertion rule: %s violated' % bad.violated)
-        bad2 = ctx.model('MC_CovEffect', 'MC_CovEffect_alias', expect_ok=False)
-        if bad2.ok or bad2.violated is None:
-            raise core.MachineryError('the list-sharing reload variant should be rejected by the design model')
-        ctx.notes.append('design model rejects a reload that shares its lists with the original: %s violated' % bad2.violated)
-        # (S->C) behaviours
-        r = core.run_tlc('MC_CovEffect', 'MC_CovEffect_beh', workers=1, timeout=900)
-        if not r.ok:
-            raise core.MachineryError('behaviour generation failed:\n' + r.out[-2000:])
-        behs = [core.parse_tla(p)[1] for p in r.prints() if core.tagged(p, 'BEH')]
-        ctx.coverage['tlc_behaviours'] = len(behs)
         rnd = random.Random(ctx.seed)
+        nsim6 = ctx.pick(250, 3000)
+        jobs = {
+            # (D) design model: the main instance gets most of the cores, everything else is small
+            'main': ('MC_CovEffect', 'MC_CovEffect', dict(workers=max(2, core.NCPU - 4))),
+            'long': ('MC_CovEffect', 'MC_CovEffect_long', dict(workers=2)),
+            'argmax': ('MC_CovEffect', 'MC_CovEffect_argmax', dict(workers=1)),
+            'alias': ('MC_CovEffect', 'MC_CovEffect_alias', dict(workers=1)),
+            'dictalias': ('MC_CovEffect', 'MC_CovEffect_dictalias', dict(workers=1)),
+            'ctoralias': ('MC_CovEffect', 'MC_CovEffect_ctoralias', dict(workers=1)),
+            # (S->C) behaviours
+            'beh': ('MC_CovEffect', 'MC_CovEffect_beh', dict(workers=1, timeout=900)),
+            'sim6': ('MC_CovEffect', 'MC_CovEffect_sim6',
+                     dict(workers=1, timeout=1500,
+                          extra=['-simulate', 'num=%d' % nsim6, '-depth', '7', '-seed', str(ctx.seed + 2)])),
+        }
+        if not ctx.quick:
+            jobs['sim'] = ('MC_CovEffect', 'MC_CovEffect_sim',
+                           dict(workers=1, timeout=1500,
+                                extra=['-simulate', 'num=3000', '-depth', '9', '-seed', str(ctx.seed + 1)]))
+        with cf.ThreadPoolExecutor(max_workers=len(jobs)) as ex:
+            futs = {k: ex.submit(core.run_tlc, m, c, **kw) for k, (m, c, kw) in jobs.items()}
+            res = {k: f.result() for k, f in futs.items()}
+        for k in ('main', 'long'):
+            _register(ctx, jobs[k][0], jobs[k][1], res[k])
+            if not res[k].ok:
+                raise core.MachineryError('design model %s failed:\n%s' % (jobs[k][1], res[k].out[-4000:]))
+        for k, what in (('argmax', 'the numpy.argmax insertion rule'),
+                        ('alias', 'a reload that shares its lists with the original'),
+                        ('dictalias', 'a reload that shares its lists with the serialised record'),
+                        ('ctoralias', 'a constructor that shares its argument lists with a second object')):
+            _register(ctx, jobs[k][0], jobs[k][1], res[k])
+            if res[k].ok or res[k].violated is None:
+                raise core.MachineryError('the %s variant should be rejected by the design model' % k)
+            ctx.notes.append('design model rejects %s: %s violated' % (what, res[k].violated))
+        behs = _behaviours(res['beh'], 'behaviour generation', need_ok=True)
+        ctx.coverage['tlc_behaviours'] = len(behs)
+        sim6 = _behaviours(res['sim6'], 'simulation (6 edits)')
+        ctx.coverage['tlc_simulated_behaviours_6_edits'] = len(sim6)
         if ctx.quick:
             rnd.shuffle(behs)
-            behs = behs[:2500]
-        else:
-            rs = core.run_tlc('MC_CovEffect', 'MC_CovEffect_sim', workers=1, timeout=1500,
-                              extra=['-simulate', 'num=4000', '-depth', '9', '-seed', str(ctx.seed + 1)])
-            sim = [core.parse_tla(p)[1] for p in rs.prints() if core.tagged(p, 'BEH')]
-            if not sim:
-                raise core.MachineryError('simulation produced no behaviours:\n' + rs.out[-2000:])
-            ctx.coverage['tlc_simulated_behaviours'] = len(sim)
-            behs += sim
+            behs = behs[:1200]
         for k, h in enumerate(behs):
-            cases.append(_beh_to_case(h, 'g%d' % k))
-        for k in range(ctx.pick(800, 12000)):
-            cases.append(_random_case(rnd, 'r%d' % k))
+            cases.append(_beh_to_case(h, 'g%d' % k, rnd))
+        for k, h in enumerate(sim6):
+            cases.append(_beh_to_case(h, 's%d' % k, rnd, q=8.0))
+        if not ctx.quick:
+            sim = _behaviours(res['sim'], 'simulation')
+            ctx.coverage['tlc_simulated_behaviours'] = len(sim)
+            for k, h in enumerate(sim):
+                cases.append(_beh_to_case(h, 'S%d' % k, rnd))
+        for k in range(ctx.pick(700, 8000)):
+            cases.append(_random_case(rnd, 'r%d' % k, k + ctx.seed))
+    import time
+    t_tlc = time.time()
     results = core.pmap(_safe_execute, cases)
+    t_exec = time.time()
     traces = []
-    for tid, (case, (events, mism)) in enumerate(zip(cases, results)):
+    totals = {}
+    for tid, (case, (events, mism, cnt)) in enumerate(zip(cases, results)):
         ctx.evaluated()
+        for k, v in cnt.items():
+            totals[k] = totals.get(k, 0) + v
         sig = json.dumps([[o['act'], o.get('x'), o.get('s'), o.get('iv0')] for o in case['ops']])
         if any(o['act'] in ('insert', 'pop') for o in case['ops']):
             ctx.nontrivial(sig)
@@ -240,19 +633,32 @@ def run(ctx):
             ctx.violation(clause, case, tags={'kind': case['kind']}, detail=m)
         traces.append((tid, events))
         if tid % 997 == 0:
-            ctx.sample({'ops': [{k: v for k, v in o.items() if k in ('act', 'x', 's', 'iv0', 'sl0')}
-                                for o in case['ops']], 'kind': case['kind']})
+            ctx.sample({'ops': [{k: v for k, v in o.items() if k in ('act', 'x', 's', 'iv0', 'sl0', 'via', 'it')}
+                                for o in case['ops']], 'kind': case['kind'], 'ctor': case.get('ctor')})
+    ctx.coverage['input_classes'] = {k: totals.get(k, 0) for k in VACUITY}
+    if ctx.replay_case is None:
+        empty = [k for k in VACUITY if not totals.get(k)]
+        if empty:
+            raise core.MachineryError('input classes never exercised in this run: %s' % ', '.join(empty))
     fails, stats = core.validate_traces('Trace_CovEffect', 'Trace', traces)
     ctx.count('traces_validated_against_impl', len(traces))
+    ctx.coverage['phase_wall_s'] = {'tlc_models_and_behaviours': round(t_tlc - ctx.t0, 1),
+                                    'execution': round(t_exec - t_tlc, 1),
+                                    'trace_validation': round(time.time() - t_exec, 1)}
     ctx.coverage['trace_lines'] = stats['lines']
     by_case = {}
     for tid, idx, clause in fails:
-        by_case.setdefault((tid, clause), []).append(idx)
-    for (tid, clause), idxs in sorted(by_case.items()):
-        ctx.violation(clause, cases[tid], tags={'kind': cases[tid]['kind']},
-                      detail={'event_indices': idxs[:10]})
+        ev = traces[tid][1][idx]
+        by_case.setdefault((tid, clause, ev.get('who', ev['ev'])), []).append(idx)
+    for (tid, clause, who), idxs in sorted(by_case.items()):
+        ev = traces[tid][1][idxs[0]]
+        ctx.violation(clause, cases[tid], tags={'kind': cases[tid]['kind'], 'who': who},
+                      detail={'event_indices': idxs[:10],
+                              'first_event': {k: v for k, v in ev.items() if k in ('ev', 'who', 'x', 'T', 'units', 'form', 'i')}})
     ctx.assume('grid replays rely on dyadic breakpoints and integer slopes being exact in IEEE doubles')
     ctx.assume('Dec arithmetic: clauses on real-valued histories hold to ~1e-6 relative of the largest operand')
+    ctx.assume('the unit factors of the dimensional clauses are the SI definitions written in Trace_CovEffect.tla; '
+               'the ratios of the tabulated gas constants agree with them to 1.3e-8')
 
 
 if __name__ == '__main__':
